@@ -334,7 +334,7 @@ void mon_quota_and_ids(const Run& run, const Ix& ix, Verdicts& v, vu::Result& re
     std::map<int, std::set<uint16_t>> open_on_conn;     // conn -> pids counted against the quota
     std::map<uint16_t, int> id_holder;                  // pid -> op holding it (client-initiated exchanges)
     std::multimap<int, uint16_t> ids_of_op;
-    std::set<int> transmitted_on;                       // (conn<<20 | op) pairs
+    std::set<int64_t> transmitted_on;                       // (conn<<20 | op) pairs
     int writes_pending = 0;
     uint64_t final_seq = UINT64_MAX;
     for (auto& e : h.ev) if (e.kind == Ev::note && e.s == "final phase") final_seq = e.seq;
@@ -364,7 +364,7 @@ void mon_quota_and_ids(const Run& run, const Ix& ix, Verdicts& v, vu::Result& re
             if ((p.type == ref::PUBLISH && p.qos > 0) || p.type == ref::PUBREL) {
                 auto& c = h.conns[k.conn];
                 auto& open = open_on_conn[k.conn];
-                if (op >= 0) transmitted_on.insert((k.conn << 20) | op);
+                if (op >= 0) transmitted_on.insert((int64_t(k.conn) << 24) | op);
                 if (c.caps.receive_maximum) {
                     unsigned rm = *c.caps.receive_maximum;
                     bool counts = !open.count(p.pid);
@@ -410,7 +410,7 @@ void mon_quota_and_ids(const Run& run, const Ix& ix, Verdicts& v, vu::Result& re
             for (auto& o : h.ops) {
                 if (!is_pub12(o) || o.immediate_expected || o.signalled || o.after_terminal) continue;
                 if (o.seq_init > t.seq || (o.completions && o.seq_done < t.seq)) continue;
-                if (transmitted_on.count((cur->id << 20) | o.id)) continue;
+                if (transmitted_on.count((int64_t(cur->id) << 24) | o.id)) continue;
                 v.add("C07", "C07:throttled-publish-starved", op_str(o) + " is still not transmitted on connection " + std::to_string(cur->id) + " at an idle point (t=" +
                                                                   std::to_string(h.ev.empty() ? 0 : 0) + ") with " + std::to_string(open_on_conn[cur->id].size()) + " of " +
                                                                   std::to_string(*cur->caps.receive_maximum) + " quota in use and no write pending");
@@ -829,6 +829,8 @@ void mon_connect(const Run& run, const Ix&, Verdicts& v, vu::Result& res) {
         std::vector<Res> rs;
         int expect = 0;
         for (auto& e : h.ev) {
+            // a new async_run starts over at the head of the list
+            if (e.kind == Ev::api_init && e.b == int(OpKind::run)) { expect = 0; continue; }
             if (e.kind != Ev::log_resolve) continue;
             std::string hp = e.s.substr(0, e.s.find(' '));
             int idx = -1;
@@ -851,7 +853,7 @@ void mon_connect(const Run& run, const Ix&, Verdicts& v, vu::Result& res) {
                 if (c.established) established = true;
                 for (auto& e : h.ev) if (e.a == c.id && e.seq < rb[i] && (e.kind == Ev::connect_end || e.kind == Ev::read_end || e.kind == Ev::write_end || e.kind == Ev::shutdown_end || e.kind == Ev::conn_close)) last_activity = std::max(last_activity, e.t);
             }
-            for (auto& e : h.ev) if (e.kind == Ev::terminal && e.seq > rb[i - 1] && e.seq < rb[i]) terminal = true;
+            for (auto& e : h.ev) if ((e.kind == Ev::terminal || (e.kind == Ev::api_init && e.b == int(OpKind::run))) && e.seq > rb[i - 1] && e.seq < rb[i]) terminal = true;
             if (established || terminal) continue;     // a new episode: its start is not a retry
             bool wrap = rs[i - 1].idx == (int)hl.size() - 1;
             vt gap = rbt[i] - last_activity;
